@@ -14,6 +14,7 @@ from ..workloads import specs as W
 from ._spec_common import eval_tree, run_trees
 
 PROP = "C05"
+ANCHORS = ['dep_logic.specifiers.range:RangeSpecifier.__and__', 'dep_logic.specifiers.range:RangeSpecifier.__or__', 'dep_logic.specifiers.range:RangeSpecifier.__invert__', 'dep_logic.specifiers.union:UnionSpecifier.__and__', 'dep_logic.specifiers.union:UnionSpecifier.__or__', 'dep_logic.specifiers.union:UnionSpecifier.__invert__', 'dep_logic.specifiers.union:UnionSpecifier._from_ranges', 'dep_logic.specifiers.special:AnySpecifier.__eq__', 'dep_logic.specifiers.special:EmptySpecifier.__eq__', 'dep_logic.specifiers:_from_pkg_specifier', 'dep_logic.specifiers:parse_version_specifier']
 RULE = ("Expression trees as in C01 plus law-shaped variants of each tree (x&y vs y&x, ~~x, x|~x, x&~x, "
         "(x|y)&x) so that the same set is reached along different operator paths; every value returned by the "
         "parser or an operator is one shape event; all values of a case are compared pairwise (== vs same admitted "
